@@ -14,7 +14,10 @@
     the parent steps over a nested STRUCT by `Size()` of what it understood).  `Size()` is the reader's
     generated one (`gsize env1`): it leaves out the fields the reader does not know AND the fields the reader
     marks deprecated, so the second scenario needs the guard as well
-    (`C04_deprecated_nested_struct_counterexample`).
+    (`C04_deprecated_nested_struct_counterexample`).  The guard constrains only structs somebody steps over
+    by `Size()`: the top-level struct is exempt, and so is a struct that is itself a UNION BRANCH — the
+    union decodes its member last and is stepped over by its own length prefix — which is treated like a
+    top-level struct: only what it contains is constrained (`C04_union_branch_struct_example`).
 -/
 import Bebop.Props.Common
 import Bebop.Proofs.Evolve
@@ -51,13 +54,17 @@ theorem C04_decode_evolved_field (env1 env2 : Env) (hE1 : EnvOk env1) (hx : Exte
     the newer schema encoded (anything may follow it in the buffer) return the restricted value.
 
     PARTIAL: holds under the guard `TopStable env1 n v`.  The guard excludes exactly the values in which some
-    STRUCT that is not the top-level record itself — a struct-typed struct field, array element, map value,
-    message field value or union member — contains, at any depth, a message field the older schema does not
+    STRUCT that somebody steps over by its `Size()` — a struct-typed struct field, array element, map value
+    or message field value — contains, at any depth, a message field the older schema does not
     know or marks deprecated (precisely: `gsize env1 (.ref m) (restrict env1 (.ref m) s) ≠ vsize s` for that
-    struct `s` — the reader's `Size()` of what it decodes differs from the bytes on the wire).  Evolved messages
+    struct `s` — the reader's `Size()` of what it decodes differs from the bytes on the wire).  Two kinds of
+    struct are NOT stepped over by `Size()` and are exempt themselves (the structs nested inside them are
+    not): the top-level record, and a struct that is itself a union member — the union decodes its member
+    last and the union is stepped over by its length prefix, so such a struct is treated like a top-level
+    struct (`structsStable_union`, `C04_union_branch_struct_example`).  Evolved messages
     that are the top-level record, or sit directly or through arrays / maps / messages / unions in a
-    top-level struct, message or union without an intervening nested struct, are all covered.
-    `C04_nested_struct_counterexample` shows the excluded case really fails. -/
+    top-level struct, message or union (or in a union-member struct) without an intervening nested struct,
+    are all covered.  `C04_nested_struct_counterexample` shows the excluded case really fails. -/
 theorem C04_unmarshal_evolved_partial (env1 env2 : Env) (hE1 : EnvOk env1) (hx : Extends env1 env2) (n : Nat)
     (v : Val) (safe : Bool) (f : Nat) (hw : wt env2 (.ref n) v) (hs : TopStable env1 n v) (hf : rank v < f + 1)
     (rest : List Byte) :
@@ -324,5 +331,74 @@ example (safe : Bool) (rest : List Byte) :
   rw [← evVal_restrict]
   exact C04_unmarshal_evolved_partial evEnv1 evEnv2 evEnv1_ok ev_extends 1 evVal safe 10 evVal_wt evVal_stable
     (by decide) rest
+
+/-! ### F. Non-vacuity: a struct that is itself a union branch may hold an evolved message -/
+
+/-- Old: `message Ev {1 -> uint32 a;}  struct Inner {Ev m; uint32 after;}  union U {1 -> Inner; 2 -> Ev;}`
+    (the branch records are written as separate definitions; `U` is record 2). -/
+def ubEnv1 : Env :=
+  [.msg [⟨1, .scalar 4, false⟩], .struct [.ref 0, .scalar 4], .union [(1, 1), (2, 0)]]
+/-- New: `Ev` has gained `2 -> uint32 b;`. -/
+def ubEnv2 : Env :=
+  [.msg [⟨1, .scalar 4, false⟩, ⟨2, .scalar 4, false⟩], .struct [.ref 0, .scalar 4], .union [(1, 1), (2, 0)]]
+/-- `Inner{m: Ev{a: 1, b: 2}, after: 3}`: the branch struct, holding an `Ev` with the NEW field set. -/
+def ubInner : Val := .struct [.msg [(1, .scalar 4 1), (2, .scalar 4 2)], .scalar 4 3]
+/-- `U{Inner: Inner{m: Ev{a: 1, b: 2}, after: 3}}` -/
+def ubVal : Val := .union 1 ubInner
+
+theorem ubEnv1_ok : EnvOk ubEnv1 := by
+  intro d hd
+  simp [ubEnv1] at hd
+  rcases hd with rfl | rfl | rfl <;> simp [DefOk]
+
+theorem ub_extends : Extends ubEnv1 ubEnv2 :=
+  ⟨DefExtends.msg_of_mem (by decide), rfl, rfl, trivial⟩
+
+theorem ubVal_wt : wt ubEnv2 (.ref 2) ubVal := by
+  refine ⟨2, _, 1, rfl, rfl, by decide, rfl, ⟨1, _, rfl, rfl, ?_⟩, by decide⟩
+  simp only [wtStruct]
+  refine ⟨⟨0, _, rfl, rfl, ?_, by decide⟩, by simp [wt], trivial⟩
+  simp only [wtMsg, ubEnv2, List.find?]
+  exact ⟨by decide, by decide, ⟨_, rfl, rfl, by simp [wt]⟩, by decide, by decide, ⟨_, rfl, rfl, by simp [wt]⟩, trivial⟩
+
+/-- The guard holds: the branch struct `Inner` is the union's member, so only its contents are constrained
+    (an `Ev` directly in it — stepped over by its length prefix — and a scalar). -/
+theorem ubVal_stable : TopStable ubEnv1 2 ubVal := by
+  simp [TopStable, ubVal, ubInner, ubEnv1, StructsStable, stableStruct, stableFields]
+
+/-- What the old reader is expected to see: `b` is gone, `after` — which FOLLOWS the evolved message in the
+    branch struct — is intact. -/
+theorem ubVal_restrict :
+    restrict ubEnv1 (.ref 2) ubVal = .union 1 (.struct [.msg [(1, .scalar 4 1)], .scalar 4 3]) := by rfl
+
+/-- A struct that IS a union branch, holding an evolved message followed by another field:
+    (a) the value is well-typed under the newer schema;
+    (b) the guard `TopStable` holds, ALTHOUGH the branch struct's own size equation fails — the reader's
+        `Size()` of the `Inner` it decodes is 14, the struct occupies 19 bytes — so in nested position
+        (`StructsStable … (.ref 1)`: a struct field, array element, …) the same `Inner` is excluded;
+    (c) both byte-slice decoders of the older schema return the restricted value, `after` intact, whatever
+        follows the record in the buffer — by `C04_unmarshal_evolved_partial`: the union decodes its member
+        last and nobody advances by the member's `Size()`. -/
+theorem C04_union_branch_struct_example (rest : List Byte) :
+    wt ubEnv2 (.ref 2) ubVal ∧
+    TopStable ubEnv1 2 ubVal ∧
+    gsize ubEnv1 (.ref 1) (restrict ubEnv1 (.ref 1) ubInner) ≠ vsize ubInner ∧
+    gsize ubEnv1 (.ref 1) (restrict ubEnv1 (.ref 1) ubInner) = 14 ∧ vsize ubInner = 19 ∧
+    ¬ StructsStable ubEnv1 (.ref 1) ubInner ∧
+    unmarshal 10 ubEnv1 true 2 (enc ubVal ++ rest)
+      = .ok (.union 1 (.struct [.msg [(1, .scalar 4 1)], .scalar 4 3])) ∧
+    unmarshal 10 ubEnv1 false 2 (enc ubVal ++ rest)
+      = .ok (.union 1 (.struct [.msg [(1, .scalar 4 1)], .scalar 4 3])) := by
+  have hne : gsize ubEnv1 (.ref 1) (restrict ubEnv1 (.ref 1) ubInner) ≠ vsize ubInner := by decide
+  refine ⟨ubVal_wt, ubVal_stable, hne, by decide, by decide, ?_, ?_, ?_⟩
+  · intro hs
+    simp only [ubInner, StructsStable] at hs
+    exact hne hs.1
+  · rw [← ubVal_restrict]
+    exact C04_unmarshal_evolved_partial ubEnv1 ubEnv2 ubEnv1_ok ub_extends 2 ubVal true 10 ubVal_wt ubVal_stable
+      (by decide) rest
+  · rw [← ubVal_restrict]
+    exact C04_unmarshal_evolved_partial ubEnv1 ubEnv2 ubEnv1_ok ub_extends 2 ubVal false 10 ubVal_wt ubVal_stable
+      (by decide) rest
 
 end Bebop
